@@ -192,7 +192,9 @@ func (k *Keeper) IterateUndelegationsByStakerAndAsset(
 // end of the block with the provided height.
 func (k *Keeper) GetPendingUndelegationRecKeys(ctx sdk.Context, height uint64) (recordKeyList []string, err error) {
 	store := prefix.NewStore(ctx.KVStore(k.storeKey), types.KeyPrefixPendingUndelegations)
-	iterator := sdk.KVStorePrefixIterator(store, []byte(hexutil.EncodeUint64(height)))
+	// the trailing "/" delimits the height component of the key: without it the heights whose
+	// hex encoding merely starts with hex(height) (e.g. 0x13 for 0x1) would be matched as well.
+	iterator := sdk.KVStorePrefixIterator(store, []byte(hexutil.EncodeUint64(height)+"/"))
 	defer iterator.Close()
 
 	ret := make([]string, 0)
